@@ -31,6 +31,7 @@ enum Kind {
     IgnoreWc,
     UpdateStale,
     WorkspaceAdd,
+    AtOp(usize),
     Edit,
 }
 
@@ -340,6 +341,8 @@ fn session(index: usize, mut rng: Rng, scratch: &Path, tier: &str) -> SessionRes
     let mut n_update_stale = 0;
     let mut n_ignore = 0;
     let mut n_absent = 0;
+    let mut n_merge = 0;
+    let mut n_atop = 0;
     let mut exempt = false;
     // scripted pool: forget / restore away the second workspace and keep using its directory
     let script_absent = rng.chance(1, 8);
@@ -510,7 +513,7 @@ fn session(index: usize, mut rng: Rng, scratch: &Path, tier: &str) -> SessionRes
             kind = Kind::UpdateStale;
             args = vec![s("workspace"), s("update-stale")];
         } else {
-            match rng.below(30) {
+            match rng.below(32) {
                 0 | 1 => args = vec![s("new")],
                 2 => args = vec![s("new"), pick_rev(&mut rng, have_w2), s("-m"), msg.clone()],
                 3 => args = vec![s("new"), pick_rev(&mut rng, have_w2)],
@@ -547,6 +550,20 @@ fn session(index: usize, mut rng: Rng, scratch: &Path, tier: &str) -> SessionRes
                     kind = Kind::UpdateStale;
                     args = vec![s("workspace"), s("update-stale")];
                 }
+                28 | 29 if w.ops.len() >= 3 => {
+                    // a command run at an older operation: no snapshot, no checkout, and its
+                    // operation becomes a second head that the next command merges
+                    let x = rng.range(1, w.ops.len() as u64 - 1) as usize;
+                    kind = Kind::AtOp(x);
+                    args = match rng.below(5) {
+                        0 | 1 => vec![s("describe"), s("-m"), msg.clone()],
+                        2 => vec![s("new"), s("-m"), msg.clone()],
+                        3 => vec![s("new"), s("root()")],
+                        _ => vec![s("log"), s("--no-graph"), s("-T"), s("commit_id")],
+                    };
+                    args.insert(0, w.op_hex[x].clone());
+                    args.insert(0, s("--at-op"));
+                }
                 25 | 26 | 27 => {
                     kind = Kind::IgnoreWc;
                     args = match rng.below(6) {
@@ -562,6 +579,7 @@ fn session(index: usize, mut rng: Rng, scratch: &Path, tier: &str) -> SessionRes
                 _ => args = vec![s("new"), s("-m"), msg.clone()],
             }
         }
+        let heads_before: Vec<usize> = head_nums(&w, &heads);
         let out = sess.jj(&wss[wi].dir.clone(), &args);
         if out.timed_out {
             return failed_case("timeout");
@@ -613,7 +631,7 @@ fn session(index: usize, mut rng: Rng, scratch: &Path, tier: &str) -> SessionRes
         if status == 1 {
             n_stale += 1;
             wss[wi].known_stale = true;
-        } else if status == 0 && kind != Kind::IgnoreWc {
+        } else if status == 0 && !matches!(kind, Kind::IgnoreWc | Kind::AtOp(_)) {
             wss[wi].known_stale = false;
         }
         if kind == Kind::UpdateStale && status == 0 {
@@ -627,15 +645,40 @@ fn session(index: usize, mut rng: Rng, scratch: &Path, tier: &str) -> SessionRes
             Kind::IgnoreWc => "KIgnoreWc".to_string(),
             Kind::UpdateStale => "KUpdateStale".to_string(),
             Kind::WorkspaceAdd => "(KWorkspaceAdd 1%N)".to_string(),
+            Kind::AtOp(x) => format!("(KAtOp {x})"),
             Kind::Edit => "KEdit".to_string(),
         };
+        // a command that found several operation heads first merges them: that operation is
+        // reported as its own step
+        let mut added = added;
+        if heads_before.len() >= 2
+            && matches!(kind, Kind::Normal | Kind::IgnoreWc | Kind::WorkspaceAdd)
+            && !added.is_empty()
+        {
+            let mut ps = w.ops[added[0]].parents.clone();
+            ps.sort();
+            if ps == heads_before {
+                let m = added.remove(0);
+                events.push(format!(
+                    "(mk_event {}%N KMerge 0%N [{}] [{m}] {})",
+                    wss[wi].num,
+                    opinfo_term(&w.ops[m]),
+                    wsl_term(&cur_ws)
+                ));
+                n_merge += 1;
+            }
+        }
+        if matches!(kind, Kind::AtOp(_)) && status == 0 {
+            n_atop += 1;
+        }
         shapes.push(format!(
             "cmd:{}{}",
             match kind {
                 Kind::IgnoreWc => "ignore-wc ",
+                Kind::AtOp(_) => "at-op ",
                 _ => "",
             },
-            args.iter().filter(|a| !a.starts_with("--ignore")).take(if args.iter().any(|a| a == "workspace" || a == "op") { 2 } else { 1 }).cloned().collect::<Vec<_>>().join(" ")
+            args.iter().skip(if matches!(kind, Kind::AtOp(_)) { 2 } else { 0 }).filter(|a| !a.starts_with("--ignore")).take(if args.iter().any(|a| a == "workspace" || a == "op") { 2 } else { 1 }).cloned().collect::<Vec<_>>().join(" ")
         ));
         shapes.push(format!("status:{status}"));
         events.push(format!(
@@ -689,6 +732,12 @@ fn session(index: usize, mut rng: Rng, scratch: &Path, tier: &str) -> SessionRes
     }
     if n_absent > 0 {
         shapes.push("session:workspace-removed-from-view".into());
+    }
+    if n_atop > 0 {
+        shapes.push("session:at-op".into());
+    }
+    if n_merge > 0 {
+        shapes.push("session:merged-operation-heads".into());
     }
     let _ = std::fs::remove_dir_all(&root);
     SessionResult {
